@@ -1,6 +1,7 @@
 package track
 
 import (
+	"runtime"
 	"runtime/debug"
 	"strings"
 	"testing"
@@ -85,4 +86,31 @@ func TestGuard(t *testing.T) {
 		t.Fatal("not zero")
 	}
 	tr2.Release()
+}
+
+// The freeing site of a buffer that MoveOnGrow relocates is the caller of Append / AppendString
+// (resolved lazily, one call deeper than the other sites).
+func TestMoveSite(t *testing.T) {
+	tr := New(Exact)
+	tr.MoveOnGrow = true
+	for _, str := range []bool{false, true} {
+		a := tr.Malloc(4)
+		var b *[]byte
+		if str {
+			b = tr.AppendString(a, "xy")
+		} else {
+			b = tr.Append(a, 1, 2)
+		}
+		if a == b || !tr.IsFreed(a) || len(*b) != 6 {
+			t.Fatalf("not moved")
+		}
+		fr, _ := runtime.CallersFrames(tr.bufs[a].freePC[:1]).Next()
+		if !strings.HasSuffix(fr.Function, "track.TestMoveSite") {
+			t.Errorf("free site %q", fr.Function)
+		}
+		al, _ := runtime.CallersFrames(tr.bufs[a].allocPC[:1]).Next()
+		if !strings.HasSuffix(al.Function, "track.TestMoveSite") {
+			t.Errorf("alloc site %q", al.Function)
+		}
+	}
 }
